@@ -1,78 +1,27 @@
 #!/usr/bin/env python3
 """gen_tables.py — translator for data tables: /repo source -> lean/RpmVerif/Gen/*.lean
 
-Runs on every check. Each table is scraped from the very regular source text; a file is rewritten
-only when its content changed (so lake re-elaborates only what depends on it). When an expected
-pattern is missing the line `DEGRADED <table>: <why>` is printed and the table is emitted empty /
-unchanged, so that the dependent theorem fails or the evidence reports `tie_degraded`.
+Runs on every check. Each table (one module under tools/gen/, function `generate()`) is scraped from
+the very regular source text; a file is rewritten only when its content changed (so lake re-elaborates
+only what depends on it). When an expected pattern is missing the line `DEGRADED <table>: <why>` is
+printed, so that the dependent theorem fails or the evidence reports `tie_degraded`.
 """
-import os, re, sys
-
-REPO = "/repo"
-OUT = os.path.join(os.path.dirname(os.path.abspath(__file__)), "..", "lean", "RpmVerif", "Gen")
-degraded = []
-
-
-def read(rel):
-    try:
-        return open(os.path.join(REPO, rel), encoding="utf-8").read()
-    except OSError as e:
-        degraded.append((rel, str(e)))
-        return ""
-
-
-def emit(name, body):
-    os.makedirs(OUT, exist_ok=True)
-    path = os.path.join(OUT, name + ".lean")
-    text = "/-! GENERATED by tools/gen_tables.py from /repo — do not edit. -/\n" + body
-    old = open(path).read() if os.path.exists(path) else None
-    if old != text:
-        open(path, "w").write(text)
-        print(f"gen_tables: wrote {name}.lean")
-
-
-def rust_str(s):
-    """decode a Rust string literal body (only the escapes that occur)"""
-    out, i = [], 0
-    while i < len(s):
-        if s[i] == "\\":
-            c = s[i + 1]
-            if c == "n": out.append("\n"); i += 2
-            elif c == "t": out.append("\t"); i += 2
-            elif c == "0": out.append("\0"); i += 2
-            elif c == "\\": out.append("\\"); i += 2
-            elif c == '"': out.append('"'); i += 2
-            elif c == "u":
-                j = s.index("}", i)
-                out.append(chr(int(s[i + 3:j], 16))); i = j + 1
-            else: out.append(c); i += 2
-        else:
-            out.append(s[i]); i += 1
-    return "".join(out)
-
-
-def natlist(s):
-    return "[" + ", ".join(str(ord(c)) for c in s) + "]"
-
-
-# ---------------------------------------------------------------- C13: rpm's own test vectors
-def gen_vercmp_vectors():
-    src = read("src/version.rs")
-    pat = re.compile(r'assert_eq!\(\s*Ordering::(Equal|Less|Greater),\s*compare_version_string\(\s*"((?:[^"\\]|\\.)*)",\s*"((?:[^"\\]|\\.)*)"\s*\)', re.S)
-    vecs = [(rust_str(a), rust_str(b), {"Equal": ".eq", "Less": ".lt", "Greater": ".gt"}[o]) for o, a, b in pat.findall(src)]
-    if len(vecs) < 50:
-        degraded.append(("VercmpVectors", f"only {len(vecs)} vectors found"))
-    body = "namespace RpmVerif.Gen\n"
-    body += "/-- (a, b, expected) from the `compare_version_string(..)` assertions in src/version.rs\n(rpm's rpmvercmp.at cases); code points written out -/\n"
-    body += "def vercmpVectors : List (List Nat × List Nat × Ordering) := [\n"
-    body += ",\n".join(f"  ({natlist(a)}, {natlist(b)}, {o})" for a, b, o in vecs)
-    body += "]\nend RpmVerif.Gen\n"
-    emit("VercmpVectors", body)
+import importlib, os, pkgutil, sys
+sys.path.insert(0, os.path.dirname(os.path.abspath(__file__)))
+import gen
+from gen import common
 
 
 def main():
-    gen_vercmp_vectors()
-    for t, why in degraded:
+    for m in sorted(pkgutil.iter_modules(gen.__path__), key=lambda m: m.name):
+        if m.name == "common":
+            continue
+        mod = importlib.import_module("gen." + m.name)
+        try:
+            mod.generate()
+        except Exception as e:  # a scraper that crashes degrades its table, it does not stop the check
+            common.degraded.append((m.name, f"generator crashed: {e!r}"))
+    for t, why in common.degraded:
         print(f"DEGRADED {t}: {why}")
     return 0
 
